@@ -133,7 +133,7 @@ def verify_replay_fresh(path):
     return p.returncode == 1, p.stdout.decode("utf-8", "replace")[-1500:]
 
 
-def run_check(prop, tier, runs=None, workers=16, seed=None, start=0):
+def run_check(prop, tier, runs=None, workers=16, seed=None, start=0, digests_out=None):
     from . import runner, shrink
 
     spec = REGISTRY[prop]
@@ -149,6 +149,9 @@ def run_check(prop, tier, runs=None, workers=16, seed=None, start=0):
     agg = runner.run_batch(engine, seed, tier, n, workers=workers, start_index=start, wall_budget=budget,
                            per_run_timeout=spec.get("per_run_timeout", 60.0), keep_digests=True)
     wall_main = time.time() - t_start
+    if digests_out:
+        with open(digests_out, "w") as f:
+            json.dump({str(k): v for k, v in agg.digests.items()}, f)
 
     # --- determinism self-test: re-run a sample at another worker count, compare event digests
     sample_n = min(n, spec.get("determinism_sample", 96 if tier == "quick" else 1024))
@@ -261,6 +264,42 @@ def build_evidence(prop, spec, engine, tier, seed, agg, wall, wall_main, determi
     }
 
 
+def selftest_determinism(names, runs_override=None):
+    """Large-sample determinism self-test: the same run indices executed in separate interpreters, at
+    different worker counts and (for engines whose event log does not depend on set order) under
+    another PYTHONHASHSEED; all event digests must agree.  Maintenance command."""
+    import tempfile
+
+    plan = {"C14": (4000, True), "C15": (400, True), "C17": (4000, True), "C13": (300, True), "C08": (96, True), "C16": (1500, False)}
+    bad = 0
+    for prop in sorted(plan):
+        if names and prop not in names:
+            continue
+        n, cross_hash = plan[prop]
+        n = runs_override or n
+        outs = []
+        variants = [("0", 16), ("0", 7)] + ([("7", 11)] if cross_hash else [])
+        for hs, workers in variants:
+            fd, path = tempfile.mkstemp(prefix="digests-", suffix=".json")
+            os.close(fd)
+            env = dict(os.environ, VERIF_HASHSEED=hs, VERIF_OUT=tempfile.mkdtemp(prefix="mako-verif-det-"), PYTHONDONTWRITEBYTECODE="1")
+            env.pop("PYTHONHASHSEED", None)
+            subprocess.run([sys.executable, "-m", "vsim.cli", prop, "--runs", str(n), "--workers", str(workers), "--digests-out", path],
+                           cwd=VERIF, env=env, stdout=subprocess.PIPE, stderr=subprocess.STDOUT)
+            with open(path) as f:
+                outs.append((hs, workers, json.load(f)))
+            os.remove(path)
+            import shutil
+            shutil.rmtree(env["VERIF_OUT"], ignore_errors=True)
+        ref = outs[0][2]
+        for hs, workers, d in outs[1:]:
+            diff = [k for k in ref if d.get(k) != ref[k]]
+            print("DETERMINISM %s: %d runs, hashseed %s / %d workers vs hashseed 0 / 16 workers: %d divergent digests%s"
+                  % (prop, len(ref), hs, workers, len(diff), (" e.g. run %s" % diff[0]) if diff else ""))
+            bad += len(diff)
+    return 2 if bad else 0
+
+
 def selftest_mutants(names, runs_override=None):
     """Sensitivity self-test: apply each mutants/*.patch to a scratch copy of /repo's mako package
     (on tmpfs, removed afterwards), point the owning check at it and require a VIOLATION whose
@@ -270,11 +309,21 @@ def selftest_mutants(names, runs_override=None):
 
     with open(os.path.join(VERIF, "mutants", "index.json")) as f:
         index = json.load(f)
+    # the independently written changes kept under seeded/<id>/ are part of the same self-test
+    sdir = os.path.join(VERIF, "seeded")
+    for sid in sorted(os.listdir(sdir)) if os.path.isdir(sdir) else ():
+        mp = os.path.join(sdir, sid, "meta.json")
+        if os.path.exists(mp):
+            with open(mp) as f:
+                meta = json.load(f)
+            prop = meta["property"]
+            index["../seeded/%s/patch.diff" % sid] = {"properties": [prop], "expect": {prop: meta["caught_by"]["signatures"]},
+                                                     "runs": {prop: meta.get("runs")} if meta.get("runs") else {}}
     base = "/dev/shm" if os.path.isdir("/dev/shm") else tempfile.gettempdir()
     failures = 0
     rows = []
     for name in sorted(index):
-        if names and name not in names:
+        if names and name not in names and not any(n in name for n in names):
             continue
         meta = index[name]
         work = tempfile.mkdtemp(prefix="mako-verif-mutant-", dir=base)
@@ -323,15 +372,18 @@ def main():
     ap.add_argument("--start", type=int, default=0)
     ap.add_argument("--workers", type=int, default=int(os.environ.get("VERIF_WORKERS", "16")))
     ap.add_argument("--replay")
+    ap.add_argument("--digests-out")
     ap.add_argument("--quiet", action="store_true")
     args = ap.parse_args()
     if args.replay:
         sys.exit(replay_file(args.replay, args.quiet))
     reexec_pinned()
+    if args.target == "selftest-determinism":
+        sys.exit(selftest_determinism(args.names, args.runs))
     if args.target == "selftest-mutants":
         sys.exit(selftest_mutants(args.names, args.runs))
     if args.target in REGISTRY:
-        sys.exit(run_check(args.target, args.tier, args.runs, args.workers, start=args.start))
+        sys.exit(run_check(args.target, args.tier, args.runs, args.workers, start=args.start, digests_out=args.digests_out))
     ap.error("unknown target %r (properties: %s)" % (args.target, ", ".join(sorted(REGISTRY))))
 
 
